@@ -10,23 +10,30 @@ GEN = ["NeuronDynamics", "NeuronAdaptation"]
 LEVEL = "proof"
 TECHNIQUE = ("Coq proof over a layer model that is generic in the component step functions (section variables): "
              "forward equalities for Serial / Biclique / RecurrentSerial by computation through the dict plumbing, "
-             "stream-level refinement to an independent dataflow specification by induction over runs, clear/replay "
-             "theorems for every position of clear; hypotheses discharged for LinearDense+DeltaCurrent / LIF / ALIF "
-             "component models that use the re-translated neuron kernels; model tied to the code by differential "
-             "correspondence against real layers")
-LEVEL_TEXT = ("Machine-checked proof (Coq) that the model of Layer.forward / Serial / Biclique / RecurrentSerial computes "
-              "neuron(transform(connection(input))), the combined biclique drive, and the feed-forward plus previous-step "
-              "feedback drive (zeros on the first step and after clear), for every component behaviour, input sequence and "
-              "run length; that clear() at any position of any run returns every connection, synapse, neuron and the "
-              "feedback buffer to the state of a freshly built layer carrying the same learned parameters and adaptations, "
-              "hence replay determinism; component hypotheses proved for the LinearDense/DeltaCurrent and LIF/ALIF models "
-              "(neuron kernels re-translated from the source on every run).")
-LEVEL_NOTE = ("Trusted: Coq kernel; translator for the neuron kernels; hand-written models C17/Layers.v and "
+             "refinement of whole runs to independent dataflow specifications (simulation lifted by induction over "
+             "operation sequences), clear/replay theorems for every position of clear from a component-level "
+             "'clear = freshly constructed' invariant argument; hypotheses discharged for LinearDense+DeltaCurrent / "
+             "LIF / ALIF component models that use the re-translated neuron kernels; model tied to the code by "
+             "differential correspondence against real layers")
+LEVEL_TEXT = ("Machine-checked proof (Coq; the generic layer theorems and all clear/replay/shape theorems are axiom-free, "
+              "the spike-attribute and combine-mode theorems use the stdlib real axioms) that the model of Layer.forward / "
+              "Serial / Biclique / RecurrentSerial computes neuron(transform(connection(input))), the combined biclique "
+              "drive (sum/mean/prod/min/max element by element, or any custom function) for any subset of inputs, and the "
+              "feed-forward plus previous-step feedback drive (zeros on the first step and after clear) - for every "
+              "component behaviour, keyword arguments, input sequence, operation order and run length; that every output "
+              "has its neuron group's batched shape; that clear() cannot fail and at any position of any run returns every "
+              "connection, synapse history and pointer, neuron state and the feedback buffer to the state of a freshly "
+              "constructed layer carrying the same weights/biases/delays/adaptations, hence replay determinism.")
+LEVEL_NOTE = ("Trusted: Coq kernel; translator for the neuron kernels (voltage_thresholding_constant, "
+              "voltage_integration_linear, adaptive_thresholds_linear_spike); hand-written models C17/Layers.v and "
               "C17/Components.v validated by correspondence only (generator coverage); torch/einops/nn.ModuleDict modelled "
-              "by their meaning. Real-number theorems use the stdlib real axioms. NOT modelled: wiring kwargs, Updater "
-              "accumulators cleared by Connection.clear, broadcasting between different shapes (treated as an error), "
-              "non-integer delays (C06), Cell objects. Finding candidate: RecurrentSerial reads Neuron.spike (refrac == "
-              "refrac_t), which is all-True when refrac_t = 0 (C03 finding) - theorem recurrent_spike_attr_refuted.")
+              "by their meaning. NOT modelled: wiring kwargs, Updater accumulators cleared by Connection.clear, broadcasting "
+              "between different shapes (treated as an error), non-integer delays (C06), Cell objects beyond the constructor's "
+              "shape check, other neuron/synapse/connection classes (the layer theorems are generic in them; their "
+              "'clear = fresh' hypotheses are proved only for LinearDense/DeltaCurrent/LIF/ALIF). The documented recurrence "
+              "is proved under refrac_t > 0; for refrac_t = 0 it is REFUTED (recurrent_spike_attr_refuted: RecurrentSerial "
+              "reads Neuron.spike = (refrac == refrac_t), all-True then - consequence of the C03 spike-attribute finding), "
+              "reported by the check as FINDING-CANDIDATE until known_findings.json lists it.")
 HEADER = ("From Coq Require Import List ZArith Bool PrimFloat.\n"
           "From Inferno Require Import Base.Num Base.NumF C17.Layers C17.Components C17.LayersExec.\n"
           "Import ListNotations.\n")
@@ -292,6 +299,46 @@ def gen_cases(rng, n):
     return out
 
 
+def exhaustive_cases(depth=4):
+    """thorough tier: one small fixed layer of every kind, EVERY operation sequence up to `depth` over an alphabet of
+    forwards (spiking / silent input) and clears (every flag combination that differs), each followed by a probe forward"""
+    import itertools
+    out = []
+    dt, B = 1.0, 1
+
+    def conn(name, i, o, w, delay=None):
+        return {"name": name, "in": [i], "out": [o], "charge": 12.0, "W": [[w + 0.1 * (a + b) for b in range(i)] for a in range(o)],
+                "bias": None, "delay": delay}
+
+    def neur(name, n):
+        return {"name": name, "shape": [n], "rest": -60.3, "reset": -65.1, "thresh": -54.7, "refrac_t": 2.0, "tc": 2.3,
+                "res": 1.1, "acfg": None}
+    hot = {"sh": [1, 2], "el": [1.0, 1.0]}
+    cold = {"sh": [1, 2], "el": [0.0, 1.0]}
+    kinds = {
+        "serial": ({"kind": "serial", "B": B, "dt": dt, "names_default": True,
+                    "conns": [conn(0, 2, 2, 0.9, {"max": 1, "D": [[0, 1], [1, 0]]})], "neurs": [neur(0, 2)], "tr": None},
+                   [["fwd", [hot], None, False], ["fwd", [cold], None, True], ["clear", True, None], ["clear", False, None]]),
+        "biclique": ({"kind": "biclique", "B": B, "dt": dt, "combine": "sum",
+                      "conns": [dict(conn(1, 2, 2, 0.9), tr=None), dict(conn(2, 2, 2, 0.4), tr=["scale", 1.5])],
+                      "neurs": [dict(neur(1, 2), tr=None), dict(neur(2, 2), tr=["neg"])]},
+                     [["fwd", [[1, [hot]], [2, [hot]]], [], False], ["fwd", [[2, [cold]]], [], True],
+                      ["clear", True, None], ["clear", False, None]]),
+        "recurrent": ({"kind": "recurrent", "B": B, "dt": dt, "trainable": False, "tr": [None, None, None],
+                       "itr": [None, None], "conns": [conn(1, 2, 2, 0.9), conn(2, 2, 2, 0.8), conn(3, 2, 2, 0.7)],
+                       "neurs": [neur(1, 2), neur(2, 2)]},
+                      [["fwd", [hot], [], [], None, None, True], ["fwd", [cold], [], [], None, None, False],
+                       ["clear", True, True, None], ["clear", False, True, None], ["clear", True, False, None]]),
+    }
+    for kind, (base, alpha) in kinds.items():
+        for d in range(1, depth + 1):
+            for seq in itertools.product(range(len(alpha)), repeat=d):
+                c = copy.deepcopy(base)
+                c["ops"] = [copy.deepcopy(alpha[i]) for i in seq] + [copy.deepcopy(alpha[0])]
+                out.append(c)
+    return out
+
+
 # ------------------------------------------------------------------ rendering to Coq
 fl = F.coq_float
 
@@ -552,6 +599,9 @@ def run(ctx):
     rng = random.Random(ctx["seed"])
     n = 300 if ctx["tier"] == "quick" else 3000
     cases = load_corpus() + gen_cases(rng, n)
+    exhaustive = ctx["tier"] == "thorough"
+    if exhaustive:
+        cases += exhaustive_cases(4)
     impl = F.run_impl(IMPL, {"cases": cases})
     model = F.eval_terms(ID, HEADER, [q_case(c) for c in cases], shard=20 if ctx["tier"] == "quick" else 60)
     mismatches, fails, cands = [], [], []
@@ -591,7 +641,9 @@ def run(ctx):
                 "(forward with kwargs/capture, clear with every flag combination, parameter assignment, train/eval, "
                 "adaptation assignment); every 6th case from a malformed stream (wrong sizes, unknown / repeated names, empty "
                 "inputs); every 10th a replay case (S; ...; clear; S); non-trivial = >=2 forwards and no construction error; "
-                "distinct by full case text",
+                "distinct by full case text"
+                + ("; plus, for one fixed small layer of each kind, every operation sequence of depth <= 4 over an alphabet of "
+                   "2 forwards and 2-3 clears" if exhaustive else ""),
         "kind_distribution": dict(Counter(c["kind"] for c in cases)),
         "op_distribution": dict(Counter(o[0] for c in cases for o in c["ops"])),
         "error_distribution": dict(errs),
